@@ -62,7 +62,24 @@ Definition in_raws (v : val) : list str :=
   flat_map (fun f => v_list line_raw (v_nth 1 f)) (v_list (fun x => x) (v_nth 1 v)).
 
 Definition run_C20u (v : val) : val := run_C20 (modelize v).
-Definition check_C20u (v out : val) : bool := check_C20 (modelize v) out.
+
+(** "the result is identical for every worker-thread count" (and for a repeated build): every build of
+    the output returns the same dictionary as the first one — same status, same items up to list order,
+    same freq_sum.  [check_C20] judges every build on its own (exact counts, size, no kept entry less
+    frequent than an omitted one); which of several equally frequent words survive the cut is left open
+    there, so two builds that break such a tie differently both pass it. *)
+Definition same_create (a b : val) : bool :=
+  match a, b with
+  | L [I 0%Z; ia; I fa], L [I 0%Z; ib; I fb] => same_dict (v_items ia) (v_items ib) && (fa =? fb)%Z
+  | L [I 1%Z], L [I 1%Z] => true
+  | _, _ => false
+  end.
+Definition builds_same (out : val) : bool :=
+  match v_nth 0 out with
+  | L (c0 :: rest) => forallb (same_create c0) rest
+  | _ => true
+  end.
+Definition check_C20u (v out : val) : bool := check_C20 (modelize v) out && builds_same out.
 
 (** * The oracle against the model *)
 Definition clinfo_eqb (a b : clinfo) : bool :=
